@@ -255,6 +255,9 @@ def case_strategy(draw, tier):
         'encoding': encoding,
         'header': header,
         'titles': draw(st.booleans()),
+        # a title as a string, a list, or a CSVW language map
+        'titles_form': draw(st.sampled_from(['str', 'str', 'list',
+                                             'lang-map', 'lang-map-str'])),
         'md_style': draw(st.sampled_from(MD_STYLES + ['dialect'] * 3)),
         # a history: another description was loaded from the same two paths
         # before the files were rewritten with this one
@@ -393,7 +396,10 @@ def metadata(case):
             col['format'] = c['format']
         if case['header'] == 'absent-titles' or (
                 case['header'] == 'present' and case.get('titles')):
-            col['titles'] = c['name']
+            tf = case.get('titles_form', 'str')
+            col['titles'] = (c['name'] if tf == 'str' else [c['name']]
+                             if tf == 'list' else {'en': [c['name']]}
+                             if tf == 'lang-map' else {'en': c['name']})
         cols.append(col)
     dialect = {'delimiter': case['delimiter'], 'encoding': case['encoding']}
     if case['header'] != 'present':
